@@ -35,7 +35,13 @@ pub fn run_cli_flags(args: &Args, property: &str) -> Report {
             "C13" => &[0, 0, 1, 2, 3],
             _ => &[0, 1, 2, 3, 4],
         };
-        let variant = *rng.pick(variants);
+        let mut variant = *rng.pick(variants);
+        // the first two cases of the first two shards are fixed: `-N verify` over a stale output and `-N clean` over a built
+        // tree (a top-level flag in front of a sub-command means nothing for it) - not left to the draw
+        let forced = i < 2 && args.shard < 2 && (variants.contains(&3) || variants.contains(&4)) && property != "C13";
+        if forced {
+            variant = if variants.contains(&4) && (i == 1 || !variants.contains(&3)) { 4 } else { 3 };
+        }
         let mut cfg = RunCfg::build_all();
         cfg.threads = 1 + rng.below(4);
         cfg.recursive = rng.chance(2, 3);
@@ -106,14 +112,14 @@ pub fn run_cli_flags(args: &Args, property: &str) -> Report {
                     cfg.trailing = false;
                     flags.push(if rng.chance(1, 2) { "-n".into() } else { "--no-trailing-newline".into() });
                 }
-                if rng.chance(1, 3) {
+                if forced || rng.chance(1, 3) {
                     top.push("-N".into());
                 }
             }
             _ => {
                 cfg.mode = "clean";
                 sub = Some("clean");
-                if rng.chance(1, 3) {
+                if forced || rng.chance(1, 3) {
                     top.push("-N".into());
                 }
             }
@@ -126,7 +132,7 @@ pub fn run_cli_flags(args: &Args, property: &str) -> Report {
                 b0.trailing = cfg.trailing;
             }
             built_ok = run_impl(&pa, &b0, &log).verdict == "ok";
-            if variant == 2 || (variant == 3 && rng.chance(1, 2)) {
+            if variant == 2 || (variant == 3 && (forced || rng.chance(1, 2))) {
                 // make one output stale or (needed only) missing; verify must then fail, also through the exit status
                 let o = output_name(&p.sources[rng.below(p.sources.len())]);
                 if variant == 2 && rng.chance(1, 2) {
